@@ -193,9 +193,9 @@ type Report struct {
 	Divergences        []Divergence    `json:"divergences"`
 	OracleFailures     []OracleFailure `json:"oracle_failures"`
 	// FindingsProbed: for every probe of a known-finding witness, whether the defect reproduced.
-	FindingsProbed map[string]bool `json:"findings_probed,omitempty"`
-	Notes          []string        `json:"notes,omitempty"`
-	TracesValidated int            `json:"traces_validated_against_impl"`
+	FindingsProbed  map[string]bool `json:"findings_probed,omitempty"`
+	Notes           []string        `json:"notes,omitempty"`
+	TracesValidated int             `json:"traces_validated_against_impl"`
 
 	distinct map[string]struct{}
 }
